@@ -16,19 +16,44 @@ import sys
 import time
 
 ROOT = os.path.dirname(os.path.dirname(os.path.abspath(__file__)))
-REPO = os.environ.get("VERIF_REPO", "/repo")
+REPO = os.path.abspath(os.environ.get("VERIF_REPO", "/repo"))
 CACHE = os.path.join(ROOT, ".cache")
-COQ = os.path.join(ROOT, "coq")
-HARNESS_BIN = os.path.join(CACHE, "target", "debug", "vharness")
 NPROC = min(16, os.cpu_count() or 4)
 GUARD = "prqlc_verif"
-
 os.makedirs(CACHE, exist_ok=True)
+
+# Normal mode: everything runs in /verif against /repo.
+# Scratch mode (VERIF_REPO=<another checkout>, used only for mutation experiments): the Coq tree and the
+# harness are copied to .cache/alt-<hash>/ so that generated tables, build output, evidence and replays
+# of the experiment never touch the registered state.
+ALT = REPO != "/repo"
+if ALT:
+    STATE = os.path.join(CACHE, "alt-" + hashlib.sha1(REPO.encode()).hexdigest()[:10])
+    os.makedirs(STATE, exist_ok=True)
+    subprocess.run(["rsync", "-a", "--delete", "--exclude", "Gen/", os.path.join(ROOT, "coq") + "/", os.path.join(STATE, "coq") + "/"], check=True)
+    os.makedirs(os.path.join(STATE, "harness"), exist_ok=True)
+    subprocess.run(["rsync", "-a", "--delete", "--exclude", ".cargo/", "--exclude", "Cargo.toml", os.path.join(ROOT, "harness") + "/", os.path.join(STATE, "harness") + "/"], check=True)
+    _ct = open(os.path.join(ROOT, "harness", "Cargo.toml")).read().replace('"/repo/', '"%s/' % REPO)
+    _cp = os.path.join(STATE, "harness", "Cargo.toml")
+    if not os.path.exists(_cp) or open(_cp).read() != _ct:
+        open(_cp, "w").write(_ct)
+    os.makedirs(os.path.join(STATE, "harness", ".cargo"), exist_ok=True)
+    open(os.path.join(STATE, "harness", ".cargo", "config.toml"), "w").write(
+        '[net]\noffline = true\n[build]\ntarget-dir = "%s"\n' % os.path.join(STATE, "target"))
+    HARNESS_DIR = os.path.join(STATE, "harness")
+    HARNESS_BIN = os.path.join(STATE, "target", "debug", "vharness")
+    if not os.path.exists(os.path.join(STATE, "target")) and os.path.exists(os.path.join(CACHE, "target")):
+        subprocess.run(["cp", "-a", os.path.join(CACHE, "target"), os.path.join(STATE, "target")])  # warm start
+else:
+    STATE = ROOT
+    HARNESS_DIR = os.path.join(ROOT, "harness")
+    HARNESS_BIN = os.path.join(CACHE, "target", "debug", "vharness")
+COQ = os.path.join(STATE, "coq")
 
 
 class Lock:
     def __init__(self, name):
-        self.path = os.path.join(CACHE, name + ".lock")
+        self.path = os.path.join(STATE if ALT else CACHE, name + ".lock")
 
     def __enter__(self):
         self.f = open(self.path, "w")
@@ -68,7 +93,7 @@ def harness_build():
         flags = os.environ.get("RUSTFLAGS", "")
         rc, out, err = sh(
             ["cargo", "+1.91.1", "build", "--offline", "--quiet"],
-            cwd=os.path.join(ROOT, "harness"),
+            cwd=HARNESS_DIR,
             timeout=1500,
             env={"RUSTFLAGS": (flags + " --cfg " + GUARD).strip()},
         )
@@ -434,11 +459,15 @@ def coq_list(xs):
 # ----------------------------------------------------------------------------- findings / outcome
 
 def load_findings(pid):
-    p = os.path.join(ROOT, "known_findings.json")
-    if not os.path.exists(p):
-        return []
-    data = json.load(open(p))
-    return [f for f in data.get("findings", []) if f.get("property") == pid]
+    out = []
+    paths = [os.path.join(ROOT, "known_findings.json")]
+    d = os.path.join(ROOT, "known_findings.d")
+    if os.path.isdir(d):
+        paths += [os.path.join(d, f) for f in sorted(os.listdir(d)) if f.endswith(".json")]
+    for p in paths:
+        if os.path.exists(p):
+            out += [f for f in json.load(open(p)).get("findings", []) if f.get("property") == pid]
+    return out
 
 
 class Check:
@@ -521,8 +550,8 @@ class Check:
 
     # --- finish
     def finish(self, trusted_base, rule, extra_cov=None):
-        os.makedirs(os.path.join(ROOT, "evidence"), exist_ok=True)
-        os.makedirs(os.path.join(ROOT, "replays"), exist_ok=True)
+        os.makedirs(os.path.join(STATE, "evidence"), exist_ok=True)
+        os.makedirs(os.path.join(STATE, "replays"), exist_ok=True)
         cov = self.coverage
         cov["evaluations"] = self.evaluations
         cov["distinct_nontrivial"] = len(self.distinct)
@@ -546,7 +575,7 @@ class Check:
             seen.add(key)
             if len(vio_lines) >= 20:
                 break
-            path = os.path.join(ROOT, "replays", "%s-%s.json" % (self.pid, key))
+            path = os.path.join(STATE, "replays", "%s-%s.json" % (self.pid, key))
             with open(path, "w") as fh:
                 json.dump({"property": self.pid, "what": what, "replay": replay, "seed": self.seed, "tier": self.tier}, fh, indent=1, default=str)
             vio_lines.append("VIOLATION property=%s replay=%s%s" % (self.pid, path, " no-failing-input-found" if no_input else ""))
@@ -561,7 +590,7 @@ class Check:
             "wall_s": round(time.time() - self.t0, 2),
             "violations": len(vio_lines),
         }
-        with open(os.path.join(ROOT, "evidence", self.pid + ".json"), "w") as fh:
+        with open(os.path.join(STATE, "evidence", self.pid + ".json"), "w") as fh:
             json.dump(ev, fh, indent=1, default=str)
         for l in lines:
             print(l)
